@@ -8,6 +8,12 @@ Glommer(register_default_types=False), and the module-level registry (inside a f
 global registrations never leak between cases).  After every registration every class is looked up
 again (so a stale memo is observable), and bystander registries are checked for isolation.
 
+Sub-check `virtual` (F66): one ABC registered with handlers and plain classes attached to it with ABC.register()
+(instances with / without __dict__, with / without __iter__, nominal subclasses of the attached classes, unattached
+controls), looked up on all three registries; the module-level registry and a default Glommer must also agree on every
+single lookup.  Sub-check `rereg` (F65): histories with the op "register an already registered type again N times"
+(N up to 1100) followed by lookups of every class.
+
 Oracle: admissible() - a validity predicate: the handler that runs must belong to a minimal element
 (under issubclass) of the registered types the object is an instance of; an exact registration of the
 object's own type wins; glom's two internal duck types rank below every nominal type.
@@ -21,21 +27,33 @@ import collections
 from hypothesis import strategies as st
 
 import glom
-from glom import Glommer, T, Assign, Delete, GlomError, UnregisteredTarget
+from glom import Glommer, T, S, Assign, Delete, GlomError, UnregisteredTarget
 
-from ..runner import Sub, Mismatch
+from ..runner import Sub, Mismatch, HarnessBug
 from .. import targets as tg
 
 PROPERTY = 'C13'
 RULE = ('class family of 20 fresh classes per case; histories of 1-6 registrations (exact in {True, False}; all operations or '
         'get only) each followed by lookups of every class through glom(obj, "x"), glom(obj, [T]), glom(obj, "*"), Assign and '
         'Delete, with warm-up lookups before registrations; registry in {Glommer(), bare Glommer, module-level registry in a '
-        'forked child}. Non-trivial = >= 3 registrations over >= 2 related classes with a lookup between two of them.')
+        'forked child}. Non-trivial = >= 3 registrations over >= 2 related classes with a lookup between two of them. '
+        'virtual: one ABC (with / without __iter__) registered for all five operations or a subset, 1-3 plain classes '
+        '(__dict__ / slots x __iter__ / none) attached with ABC.register() or left unattached, optionally a nominal subclass each, '
+        'optionally the ABC registered a second time with other handlers; every class x operation looked up on Glommer(), a bare Glommer and the '
+        'module-level registry, and the module-level outcomes compared with the default Glommer\'s; non-trivial = an attached class '
+        'that one of glom\'s duck types matches. rereg: 1-2 registrations, then one type registered again N times '
+        '(N in 2..1100), optionally a registration of a subclass afterwards; non-trivial = N >= 1000.')
 ASSUMPTIONS = [
     'observation only through glom(), Glommer.glom(), assign-/delete-specs; handlers are tagged with the class they were registered for',
     'for unrelated registered bases of one class (diamond, mixin) either handler is accepted',
     "glom's internal duck types (_AbstractIterable, _ObjStyleKeys) rank below every nominal registered type (DESIGN.md F14)",
     'operations that a registration leaves to autodiscovery are modelled as "auto" and not asserted',
+    'virtual: an ABC covers its virtual subclasses (issubclass / isinstance are true) and, being a registered type, beats glom\'s '
+    'two internal duck types; outcomes of "auto" operations are not asserted per registry but must be equal on the module-level '
+    'registry and a default Glommer ("a default Glommer behaves like the module-level glom")',
+    'virtual: an ABC that defines __iter__ covers virtual subclasses without __iter__ like any others (F91)',
+    'no precedence is asserted between a virtual base and a registered nominal base (virtual: the only registered types are the '
+    'ABC and the defaults; object is not registered with handlers either: the duck types are filed below object)',
 ]
 
 OPS = ['get', 'iterate', 'keys', 'assign', 'delete']
@@ -98,8 +116,9 @@ class Model(object):
     def register(self, name, kind, exact):
         cls = self.fam[name]
         self.serial += 1
+        explicit = explicit_ops(kind)
         for op in OPS:
-            if kind.startswith('off-'):
+            if isinstance(kind, str) and kind.startswith('off-'):
                 # register(cls, <op>=False): "this type does not support <op>" is the behaviour registered for it
                 if op == kind[4:]:
                     tag = ('off', self.serial, name, op)
@@ -108,7 +127,7 @@ class Model(object):
                 else:
                     prev = self.table[op].get(cls)
                     tag = prev[0] if prev is not None else 'auto'
-            elif kind == 'all' or op == 'get':
+            elif op in explicit:
                 tag = ('user', self.serial, name, op)
             elif op == 'keys':
                 continue             # 'keys' has no autodiscovery: a get-only registration leaves it alone
@@ -134,8 +153,23 @@ class Model(object):
         return {'default'}
 
 
+def explicit_ops(kind):
+    """operations a registration of this kind passes a handler for: 'all' | 'get' | a list of operations ('off-<op>': none)"""
+    if isinstance(kind, list):
+        return list(kind)
+    if kind == 'all':
+        return list(OPS)
+    if kind == 'get':
+        return ['get']
+    return []
+
+
 def tagname(tag):
-    return tag if isinstance(tag, str) else '%s#%d:%s' % (tag[2], tag[1], tag[3])
+    if isinstance(tag, str):
+        return tag
+    if tag[0] == 'crash':
+        return 'crash(%s)' % (tag[1],)
+    return '%s#%d:%s' % (tag[2], tag[1], tag[3])
 
 
 # ---------------------------------------------------------------------------
@@ -172,17 +206,17 @@ class World(object):
             if op == 'assign':
                 return lambda obj, key, val: self.log.append(('H', tag))
             return lambda obj, key: self.log.append(('H', tag))
-        if kind.startswith('off-'):
+        if isinstance(kind, str) and kind.startswith('off-'):
             kw = {kind[4:]: False}
         else:
-            kw = dict((op, mk(op)) for op in (OPS if kind == 'all' else ['get']))
+            kw = dict((op, mk(op)) for op in explicit_ops(kind))
         if self.g is None:
             glom.register(cls, exact=exact, **kw)
         else:
             self.g.register(cls, exact=exact, **kw)
 
     def observe(self, obj, op):
-        """tag of the handler that ran | 'default' | 'unregistered' | ('other', text)"""
+        """tag of the handler that ran | 'default' | 'unregistered' | ('crash', 'RecursionError')"""
         try:
             if op == 'get':
                 r = self.glom(obj, 'x')
@@ -211,6 +245,9 @@ class World(object):
             return 'default'
         except UnregisteredTarget:
             return 'unregistered'
+        except RecursionError:
+            # raw or as GlomError.wrap(RecursionError): the lookup itself died (F65: a type tree nested ~1000 levels deep)
+            return ('crash', 'RecursionError')
         except GlomError as e:
             return 'default'       # the default handler ran and failed on this object (e.g. no such attribute)
         except Exception as e:
@@ -235,9 +272,32 @@ DUCK_ITERABLE = ('L', 'L2', 'DD', 'TT', 'It')
 DUCK_DICT = ('P', 'P2')
 
 
-def run_history(recipe):
-    """executes the history; returns (violation | None, stats)"""
-    fam = make_family()
+class default_stack(object):
+    """The interpreter's default recursion budget (1000 frames), counted from the calling frame: what a program that
+    calls glom() from its top level has.  Hypothesis raises the limit by some thousand frames while it runs a test, a
+    replay does not: without this the outcome of a history with a deeply nested type tree (F65) would depend on who
+    called the check."""
+    def __enter__(self):
+        self.old = sys.getrecursionlimit()
+        depth, f = 0, sys._getframe()
+        while f is not None:
+            depth, f = depth + 1, f.f_back
+        sys.setrecursionlimit(depth + 1000)
+
+    def __exit__(self, *exc):
+        sys.setrecursionlimit(self.old)
+
+
+def run_history(recipe, fam=None, names=None, inst=None, trace=None):
+    """executes the history; returns (violation | None, stats).  fam / names / inst: another class family than the
+    default one (sub-check virtual); trace: a list that receives every (step index, class, op, outcome) looked up"""
+    with default_stack():
+        return _run_history(recipe, fam, names, inst, trace)
+
+
+def _run_history(recipe, fam, names, inst, trace):
+    if fam is None:
+        fam, names, inst = make_family(), NAMES, instance
     kind = recipe['registry']
     world = World(kind, fam)
     bystanders = [World('glommer', fam), World('bare', fam)]
@@ -246,21 +306,37 @@ def run_history(recipe):
     model = Model(fam, kind != 'bare')
     nreg = 0
     stats = {'lookups': 0, 'auto-skipped': 0, 'f14': 0}
-    for step in recipe['steps']:
+    for si, step in enumerate(recipe['steps']):
         if step[0] == 'warm':
-            world.observe(instance(fam, step[1]), step[2])
+            world.observe(inst(fam, step[1]), step[2])
             continue
-        _, name, rkind, exact = step
-        model.register(name, rkind, exact)
-        world.register(name, rkind, exact, model.serial)
+        if step[0] == 'warm-all':
+            for cname in names:
+                for op in OPS:
+                    world.observe(inst(fam, cname), op)
+            continue
+        # ['reg', name, kind, exact] | ['rereg', name, kind, exact, n]: the same registration n times over
+        name, rkind, exact = step[1:4]
+        try:
+            for _ in range(step[4] if step[0] == 'rereg' else 1):
+                model.register(name, rkind, exact)
+                world.register(name, rkind, exact, model.serial)
+        except RecursionError as e:
+            return ('register-crashed', 'registry=%s history %r: RecursionError in register() of step %d' % (kind, recipe['steps'], si)), stats
         nreg += 1
         # the very next calls must see the registration: look every class up for every op
-        for cname in NAMES:
+        for cname in names:
             for op in OPS:
-                obj = instance(fam, cname)
+                obj = inst(fam, cname)
                 adm = model.admissible(obj, op)
                 got = world.observe(obj, op)
                 stats['lookups'] += 1
+                if trace is not None:
+                    trace.append((si, cname, op, got if isinstance(got, str) else tagname(got)))
+                if isinstance(got, tuple) and got[0] == 'crash':
+                    # no registration makes a lookup die (also not one whose outcome is left to autodiscovery)
+                    return ('lookup-crashed', 'registry=%s after %r: %s of an instance of %s died with %s'
+                            % (kind, recipe['steps'][:si + 1], op, cname, got[1])), stats
                 if 'auto' in adm:
                     stats['auto-skipped'] += 1
                     continue
@@ -288,9 +364,9 @@ def run_history(recipe):
                     return ('wrong-handler', detail), stats
     # isolation: bystander registries behave as if nothing had been registered
     for w in bystanders:
-        for cname in NAMES:
+        for cname in names:
             for op in ('get', 'iterate'):
-                got = w.observe(instance(fam, cname), op)
+                got = w.observe(inst(fam, cname), op)
                 if not isinstance(got, str):
                     return ('isolation', 'registrations on the %s registry are visible on a %s registry: %s of %s ran %s'
                             % (kind, w.kind, op, cname, tagname(got))), stats
@@ -305,6 +381,11 @@ def check(recipe, ctx):
     names = set(s[1] for s in regs)
     ctx.label('registry-' + kind, 'regs-%d' % min(len(regs), 4))
     ctx.nontrivial(len(regs) >= 3 and len(names) >= 2)
+    for s in recipe['steps']:
+        if s[0] == 'rereg':
+            # F65: the same type registered again s[4] times; >= 1000 is the depth at which a nested tree kills the lookups
+            ctx.label('rereg', 'rereg-deep' if s[4] >= 1000 else 'rereg-shallow', 'rereg-' + ('exact' if s[3] else 'fuzzy'))
+            ctx.nontrivial(s[4] >= 1000)
     if kind == 'global':
         res = in_child(recipe)
     else:
@@ -314,7 +395,7 @@ def check(recipe, ctx):
     ctx.outcome([kind, len(regs)])
 
 
-def in_child(recipe):
+def in_child(recipe, fn=None):
     """run the history in a forked child so that module-level registrations never leak"""
     r, w = os.pipe()
     pid = os.fork()
@@ -323,7 +404,7 @@ def in_child(recipe):
         try:
             os.close(r)
             try:
-                res, stats = run_history(recipe)
+                res, stats = (fn or run_history)(recipe)
                 payload = json.dumps({'res': res})
             except BaseException as e:
                 payload = json.dumps({'crash': '%s: %s' % (type(e).__name__, e)})
@@ -353,6 +434,10 @@ def is_f14(recipe, mm):
 # ---------------------------------------------------------------------------
 # a default Glommer behaves like the module-level glom
 
+def lambda_div(x):
+    return 100.0 / x
+
+
 EQUIV_POOL = [
     ({'a': {'b': [1, 2, 3]}}, 'a.b.1'),
     ({'a': {'b': [1, 2, 3]}}, {'x': 'a.b', 'y': ('a.b', [T * 2])}),
@@ -368,6 +453,15 @@ EQUIV_POOL = [
     ([1, 2, 3], Delete('1')),
     (tg.Obj(a=1), Assign('b', 2)),
     ({}, Assign('a.b.c', 1, missing=dict)),
+    # keyword arguments of glom() (F68): (target, spec, kwargs, documented result)
+    ({'a': 1}, S['v'], {'scope': {'v': 3}}, 3),
+    ({'a': 1}, {'x': 'a', 'y': S['v']}, {'scope': {'v': [1, 2]}}, {'x': 1, 'y': [1, 2]}),
+    ({'a': [1, 2]}, ('a', [T + 1], S['w']['k']), {'scope': {'w': {'k': 'deep'}, 'u': 0}}, 'deep'),
+    ({'a': 1}, S(v=T['a']), {'scope': {'v': 3}}, {'a': 1}),
+    ({'a': 1}, 'b', {'default': 7, 'scope': {'v': 3}}, 7),
+    ({'a': 1}, 'b', {'default': 7}, 7),
+    ({}, len, {'default': 0.0, 'skip_exc': ZeroDivisionError}, 0),
+    (0, (lambda_div, ), {'default': 0.5, 'skip_exc': ZeroDivisionError}, 0.5),
 ]
 
 
@@ -378,10 +472,13 @@ def enum_equiv(tier):
 
 def check_equiv(recipe, ctx):
     import copy
-    target, spec = EQUIV_POOL[recipe['case']]
+    entry = EQUIV_POOL[recipe['case']]
+    target, spec = entry[:2]
+    kwargs = entry[2] if len(entry) > 2 else {}
+    ctx.label('with-scope-kwarg' if 'scope' in kwargs else 'with-kwargs' if kwargs else 'plain')
     ctx.nontrivial(True)
     outs = []
-    for runner in (lambda t, s: glom.glom(t, s), lambda t, s: Glommer().glom(t, s)):
+    for runner in (lambda t, s: glom.glom(t, s, **copy.deepcopy(kwargs)), lambda t, s: Glommer().glom(t, s, **copy.deepcopy(kwargs))):
         t = copy.deepcopy(target)
         try:
             outs.append(('ok', repr(runner(t, spec)), repr(t)))
@@ -390,7 +487,12 @@ def check_equiv(recipe, ctx):
         except Exception as e:
             outs.append(('exc', type(e).__name__))
     if outs[0] != outs[1]:
-        raise Mismatch('glommer-differs', 'glom(%r, %r) -> %r but Glommer().glom(...) -> %r' % (target, spec, outs[0], outs[1]))
+        raise Mismatch('glommer-differs', 'glom(%r, %r%s) -> %r but Glommer().glom(...) -> %r'
+                       % (target, spec, ''.join(', %s=%r' % kv for kv in sorted(kwargs.items())), outs[0], outs[1]))
+    if len(entry) > 3 and outs[0][:2] != ('ok', repr(entry[3])):
+        # the pool entry states its documented result: two equal failures are no agreement
+        raise Mismatch('wrong-result', 'glom(%r, %r%s) -> %r, documented result %r'
+                       % (target, spec, ''.join(', %s=%r' % kv for kv in sorted(kwargs.items())), outs[0], entry[3]))
     ctx.outcome(outs[0])
 
 
@@ -471,11 +573,165 @@ def check_missing(recipe, ctx):
     ctx.outcome(recipe)
 
 
+# ---------------------------------------------------------------------------
+# F65: a type registered again (and again) keeps covering its subclasses
+
+REREG_BASES = ['A', 'B', 'C', 'D', 'M', 'P', 'L', 'V']          # every one has (nominal or virtual) subclasses in the family
+REREG_AFTER = {'A': ['B', 'It', 'E'], 'B': ['C', 'E'], 'C': ['F'], 'D': ['E', 'E2'], 'M': ['F', 'F2'], 'P': ['P2'], 'L': ['L2'], 'V': ['W']}
+
+
+def gen_rereg(draw):
+    steps = []
+    base = draw(st.sampled_from(REREG_BASES))
+    if draw(st.booleans()):
+        steps.append(['warm', draw(st.sampled_from(NAMES)), draw(st.sampled_from(OPS))])
+    steps.append(['reg', base, draw(st.sampled_from(['all', 'get'])), draw(st.sampled_from([False, False, False, True]))])
+    if draw(st.integers(0, 2)) == 0:
+        steps.append(['reg', draw(st.sampled_from(NAMES)), draw(st.sampled_from(['all', 'get'])), draw(st.booleans())])
+    # deep counts first: a failing case shrinks towards 1100, beyond the interpreter's default recursion budget
+    # (run_history pins that budget with default_stack(), whoever calls the check)
+    n = draw(st.sampled_from([1100, 1100, 1050, 1010, 300, 40, 7, 2]))
+    steps.append(['rereg', base, draw(st.sampled_from(['all', 'get', 'get'])), draw(st.sampled_from([False, False, False, True])), n])
+    if draw(st.booleans()):
+        # a subclass registered into the tree afterwards
+        steps.append(['reg', draw(st.sampled_from(REREG_AFTER[base])), draw(st.sampled_from(['all', 'get'])), False])
+    return {'registry': draw(st.sampled_from(['glommer', 'bare', 'global'])), 'steps': steps}
+
+
+# ---------------------------------------------------------------------------
+# F66: ONE registered ABC covers its virtual subclasses on every registry; module-level glom == default Glommer
+#
+# recipe: {'abc_iter': bool                      the ABC itself defines __iter__ (like collections.abc.Mapping)
+#          'classes': [{'dict': bool,            instances have a __dict__ (else slots)
+#                       'iter': bool,            the class defines __iter__
+#                       'attach': bool,          ABC.register(cls)
+#                       'sub': bool}, ...]       plus a nominal subclass of it
+#          'steps': ['warm-all'] | ['reg', 'V', kind, exact]}
+
+def make_vfamily(recipe):
+    ns = {'__slots__': ()}
+    if recipe['abc_iter']:
+        ns['__iter__'] = lambda self: iter(())
+    fam = collections.OrderedDict()
+    fam['V'] = abc.ABCMeta('V', (object,), ns)
+    names = []
+    for i, c in enumerate(recipe['classes']):
+        cns = {} if c['dict'] else {'__slots__': ('x',)}
+        if c['iter']:
+            cns['__iter__'] = lambda self: iter(())
+        name = 'K%d' % i
+        fam[name] = type(name, (object,), cns)
+        names.append(name)
+        if c['attach']:
+            fam['V'].register(fam[name])
+        if c['sub']:
+            fam[name + 's'] = type(name + 's', (fam[name],), {} if c['dict'] else {'__slots__': ()})
+            names.append(name + 's')
+    return fam, names
+
+
+def vinstance(fam, name):
+    o = fam[name]()
+    o.x = 1
+    return o
+
+
+V_KINDS = ['all', 'all', 'all', ['get'], ['assign', 'delete'], ['get', 'iterate'], ['get', 'keys'], ['get', 'keys', 'assign'], ['iterate', 'delete']]
+
+
+def gen_virtual(draw):
+    abc_iter = draw(st.booleans())
+    classes = []
+    for i in range(draw(st.sampled_from([1, 2, 2, 3]))):
+        attach = i == 0 or draw(st.sampled_from([True, True, False]))
+        c = {'dict': draw(st.sampled_from([True, True, False])), 'iter': draw(st.booleans()), 'attach': attach, 'sub': draw(st.sampled_from([False, False, True]))}
+        if abc_iter and i == 0:
+            # the shape of F66 (2): both duck types match, the ABC is a subclass of one of them;
+            # the shape of F91: the ABC is iterable, its virtual subclass is not
+            c['dict'], c['iter'] = draw(st.sampled_from([(True, True), (True, True), (True, False), (False, False)]))
+        classes.append(c)
+    steps = []
+    if draw(st.sampled_from([False, False, True])):
+        steps.append(['warm-all'])
+    steps.append(['reg', 'V', draw(st.sampled_from(V_KINDS)), draw(st.sampled_from([False] * 7 + [True]))])
+    if draw(st.sampled_from([False, False, False, True])):
+        # the same type again, with other handlers: the newest ones are used, for the same objects
+        steps.append(['reg', 'V', draw(st.sampled_from(V_KINDS)), False])
+    return {'abc_iter': abc_iter, 'classes': classes, 'steps': steps}
+
+
+def run_virtual(recipe):
+    """(violation | None, stats); runs inside a forked child: the last history registers on the module-level registry"""
+    traces = {}
+    for kind in ('glommer', 'bare', 'global'):
+        fam, names = make_vfamily(recipe)
+        traces[kind] = []
+        res, stats = run_history({'registry': kind, 'steps': recipe['steps']}, fam=fam, names=names, inst=vinstance, trace=traces[kind])
+        if res is not None and kind != 'global':
+            return res, stats
+    # "a default Glommer behaves like the module-level glom": every single lookup, also those left to autodiscovery
+    # (when the module-level history stopped at a wrong handler, the trace ends with that lookup: if the default
+    # Glommer - which passed - did something else there, the disagreement is the finding)
+    for a, b in zip(traces['global'], traces['glommer']):
+        if a != b:
+            return ('glommer-differs', 'classes %r, ABC %s __iter__, history %r: after step %d %s of an instance of %s ran %s on the '
+                    'module-level registry but %s on a default Glommer'
+                    % (recipe['classes'], 'with' if recipe['abc_iter'] else 'without', recipe['steps'], a[0], a[2], a[1], a[3], b[3])), stats
+    if res is not None:
+        return res, stats
+    if len(traces['global']) != len(traces['glommer']):
+        return ('harness', 'virtual: traces of different length'), stats
+    return None, stats
+
+
+def check_virtual(recipe, ctx):
+    attached = [c for c in recipe['classes'] if c['attach']]
+    vregs = [s for s in recipe['steps'] if s[0] == 'reg' and s[1] == 'V']
+    vreg = vregs[0]
+    ops = sorted(set(sum([explicit_ops(s[2]) for s in vregs], [])))
+    covering = not all(s[3] for s in vregs)
+    # the class of F66 (1): a virtual subclass that one of glom's duck types matches (__dict__ -> _ObjStyleKeys, __iter__ -> _AbstractIterable)
+    duck = covering and any(c['dict'] or c['iter'] for c in attached)
+    # the class of F66 (2): both duck types match, the ABC is itself iterable, assign / delete registered
+    both = covering and recipe['abc_iter'] and any(c['dict'] and c['iter'] for c in attached) and ('assign' in ops or 'delete' in ops)
+    ctx.label('abc-iterable' if recipe['abc_iter'] else 'abc-plain', 'ops-all' if len(ops) == 5 else 'ops-subset',
+              'exact' if vreg[3] else 'covering')
+    if duck:
+        ctx.label('virtual-duck')
+    if both:
+        ctx.label('virtual-both-ducks-mutation')
+    if covering and any(c['dict'] and not c['iter'] for c in attached):
+        ctx.label('virtual-dict-only')
+    if covering and any(c['iter'] and not c['dict'] for c in attached):
+        ctx.label('virtual-iter-only')
+    if covering and recipe['abc_iter'] and any(not c['iter'] for c in attached):
+        # F91: the ABC is a subclass of the _AbstractIterable duck type, the attached class is no instance of it
+        ctx.label('virtual-noniterable-of-iterable-abc')
+    if covering and any(c['sub'] for c in attached):
+        ctx.label('virtual-nominal-sub')
+    if len([s for s in recipe['steps'] if s[0] == 'reg']) > 1:
+        ctx.label('abc-registered-twice')
+    if any(not c['attach'] for c in recipe['classes']):
+        ctx.label('with-unattached')
+    ctx.nontrivial(duck)
+    res = in_child(recipe, run_virtual)
+    if res is not None and res[0] == 'harness':
+        raise HarnessBug(res[1])
+    if res is not None:
+        raise Mismatch(res[0], res[1])
+    ctx.outcome([len(recipe['classes']), ops])
+
+
 CLASSIFIERS = {'F14-duck-type-shadowing': is_f14}
 
 SUBS = [
     Sub('history', check, gen=gen, quick=600, thorough=2500,
         floors={'registry-global': 0.1, 'registry-bare': 0.1}),
+    Sub('virtual', check_virtual, gen=gen_virtual, quick=240, thorough=400,
+        floors={'virtual-duck': 0.4, 'virtual-both-ducks-mutation': 0.08, 'virtual-dict-only': 0.2, 'virtual-iter-only': 0.06,
+                'virtual-noniterable-of-iterable-abc': 0.09}),
+    Sub('rereg', check, gen=gen_rereg, quick=64, thorough=100,
+        floors={'rereg-deep': 0.25}),
     Sub('equiv', check_equiv, enum=enum_equiv),
     Sub('missing', check_missing, enum=enum_missing),
 ]
